@@ -121,6 +121,8 @@ func runC04(c *core.Ctx) {
 				switch {
 				case shared != 0:
 					c.Fail("R2", key, p.Pos(m.Pos()), "the returned collection may share storage with "+shared.Describe(m)+" while being a different object: an in-place mutator on one changes the other")
+				case e.RetIdent[k].Params()&^core.LocParam(0) != 0:
+					c.Fail("R2", key, p.Pos(m.Pos()), "the operation may hand back "+(e.RetIdent[k].Params()&^core.LocParam(0)).Describe(m)+" itself (an argument, not the receiver): result and argument are then one object, an in-place mutator on the result changes the argument")
 				case mustFresh && e.RetIdent[k] != 0:
 					c.Fail("R2", key, p.Pos(m.Pos()), m.Name()+" must return a detached copy but may return "+e.RetIdent[k].Describe(m)+" itself")
 				default:
